@@ -71,6 +71,14 @@ func plans() []plan {
 		{spec: sp("diskpacked-wrapkv", map[string]any{"maxFileSize": 700, "meta": "leveldb"}), weight: 2, label: "diskpacked"},
 		{spec: sp("diskpacked-wrapkv", map[string]any{"maxFileSize": 700, "meta": "kv"}), weight: 1, label: "diskpacked"},
 		{spec: sp("diskpacked-wrapkv", map[string]any{"maxFileSize": 700, "meta": "sqlite"}), weight: 1, label: "diskpacked"},
+		// sync-queue layout of files/localdisk (root "queue-…"): an enumeration schedules the removal of every
+		// empty shard directory it meets, receives re-create them; with OSFS's RemoveDir (RemoveAll) and with
+		// rmdir(2) semantics (what the sftp VFS does)
+		{spec: sp("files-yieldvfs", map[string]any{"root": "queue-c14"}), mode: "queue", weight: 1, label: "files-queue"},
+		{spec: sp("files-yieldvfs", map[string]any{"root": "queue-c14", "rmdir": true}), mode: "queue", weight: 3, label: "files-queue-rmdir"},
+		// proxycache whose cache store is harness-owned too: own blobs pre-loaded on the origin only, the
+		// owner's fetch (cache miss) is directly followed by its remove, the cache fill is held (jobSpec.Mode cachemiss)
+		{spec: sp("proxycache-local", map[string]any{"cacheBytes": 300}), mode: "cachemiss", weight: 2, label: "proxycache[memory]"},
 	}
 }
 
@@ -198,6 +206,8 @@ func run(r *ev.Run) {
 			}
 			if p.mode == "ackearly" {
 				j.Mode, j.Owners = p.mode, j.Clients
+			} else if p.mode == "queue" || p.mode == "cachemiss" {
+				j.Mode = p.mode
 			} else if p.mode != "" && h%2 == 0 {
 				j.Mode = p.mode
 				j.PackSafe = p.mode == "packfile" && h%4 == 0
@@ -221,7 +231,7 @@ func run(r *ev.Run) {
 		indexJobs = append(indexJobs, jobSpec{
 			ID: fmt.Sprintf("i%d;", h), Kind: "index", Label: "index+corpus", Seed: irng.Int63n(1 << 40),
 			Permanodes: 3, Claims: 8, Victims: 3, Readers: []int{2, 4, 6, 8, 12}[h%5], Reads: 40 + irng.Intn(41), KV: kvs[h%len(kvs)],
-			Deps: true, Handler: true,
+			Deps: true, Handler: true, Tail: true,
 		})
 	}
 	filter := func(js []jobSpec) []jobSpec {
@@ -364,14 +374,17 @@ func run(r *ev.Run) {
 		r.Inconclusive(fmt.Sprintf("%d porcupine timeouts and %d hung histories out of %d histories", linTimeouts, hung, totalHist))
 	}
 	if os.Getenv("VERIF_ONLY") == "" {
-		r.Require("backend_kinds", "memory", "localdisk", "diskpacked", "blobpacked", "encrypt", "replica", "shard", "cond", "overlay", "namespace", "proxycache", "files")
+		r.Require("backend_kinds", "memory", "localdisk", "diskpacked", "blobpacked", "encrypt", "replica", "shard", "cond", "overlay", "namespace", "proxycache", "files", "files-queue", "files-queue-rmdir")
 		r.Require("events", "overlapping-operations", "pack-rollover", "zip-packed", "encrypt-compaction", "index+corpus", "race-logs-located", "race-detector-canary-reported",
 			"own-blob-sequences", "own-blobs-preloaded-on-every-replica", "slow-replica-remove",
+			"queue-empty-dir-removed-by-enumeration", "queue-receive-recreated-removed-dir",
+			"own-blobs-preloaded-below-the-cache", "own-fetch-missed-the-cache", "cache-fill-held-for-the-owners-remove",
 			"vfs-step-yields", "ondisk-kv-yields-leveldb", "ondisk-kv-yields-kv", "ondisk-kv-yields-sqlite",
 			"index-out-of-order-file", "index-out-of-order-directory", "index-out-of-order-permanode2", "index-out-of-order-claim2",
-			"index-dep-lookup-missed", "index-dep-miss-held", "index-miss-acted-on-after-dep-indexed", "index-rows-compared-with-sequential-reference")
+			"index-dep-lookup-missed", "index-dep-miss-held", "index-miss-acted-on-after-dep-indexed", "index-rows-compared-with-sequential-reference",
+			"index-delete-reindex-held-while-listing", "index-listing-after-deletion-became-visible", "index-sorted-listings-compared-with-sequential-reference")
 		r.Require("history_kinds", "store", "store-composition", "index")
-		r.Require("index_ops", "GetBlobMeta", "GetFileInfo", "PermanodeAttrValue", "AppendClaims", "Query", "Query-mod", "GetRecentPermanodes", "Describe", "GetClaims", "EdgesTo", "GetPermanodesWithAttr")
+		r.Require("index_ops", "GetBlobMeta", "GetFileInfo", "PermanodeAttrValue", "AppendClaims", "Query", "Query-mod", "Query-created", "EnumeratePermanodesCreated", "EnumeratePermanodesLastModified", "GetRecentPermanodes", "Describe", "GetClaims", "EdgesTo", "GetPermanodesWithAttr")
 	}
 }
 
